@@ -109,7 +109,7 @@ pub fn run(ctx: &Ctx) -> i32 {
                 for t in targets {
                     let (m, _) = mutate::apply(&prog, rule, t, &mut rng);
                     let Some(m) = m else { continue };
-                    let toks = print::print_program(&m, style);
+                    let toks = print::print_program_suffixed(&m, style);
                     let src = print::render(&toks, Layout::Compact);
                     judge(ctx, &mut st, &format!("{rule:?}"), &pr.src, &src);
                 }
@@ -152,13 +152,13 @@ pub fn run(ctx: &Ctx) -> i32 {
                 }
                 let t2 = rng.usize_below(s2);
                 let (Some(m2), _) = mutate::apply(&m1, r2, t2, &mut rng) else { continue };
-                let toks = print::print_program(&m2, style);
+                let toks = print::print_program_suffixed(&m2, style);
                 let src = print::render(&toks, Layout::Compact);
                 judge(ctx, &mut st, "two edits", &pr.src, &src);
             }
             if st.samples.len() < 3 && st.bases % 50 == 7 {
                 if let (Some(m), _) = mutate::apply(&prog, Rule::AssignToImmutable, 0, &mut rng) {
-                    let toks = print::print_program(&m, style);
+                    let toks = print::print_program_suffixed(&m, style);
                     st.samples.push(json!({"rule": "AssignToImmutable", "mutant": print::render(&toks, Layout::Compact), "verdict": "rejected by the type checker"}));
                 }
             }
